@@ -555,10 +555,23 @@ def remap_by_types(
             assert call_method is not None
 
             # Call it. We can only deal with a single argument here...
-            if len(call_node.args) == 0:
+            lambda_keyword: Optional[ast.keyword] = None
+            if len(call_node.args) == 0 and len(call_node.keywords) == 0:
                 r = call_method()
-            elif len(call_node.args) == 1:
+            elif len(call_node.args) == 1 and len(call_node.keywords) == 0:
                 r = call_method(call_node.args[0], known_types=self._found_types)
+            elif (
+                len(call_node.args) == 0
+                and len(call_node.keywords) == 1
+                and call_node.keywords[0].arg is not None
+                and call_node.keywords[0].arg != "known_types"
+            ):
+                # `Select(f=lambda ...)`
+                lambda_keyword = call_node.keywords[0]
+                r = call_method(
+                    **{lambda_keyword.arg: lambda_keyword.value},  # type: ignore
+                    known_types=self._found_types,
+                )
             else:
                 return None
 
@@ -575,6 +588,13 @@ def remap_by_types(
                 # callback replaced the call that is its body): the call site has to use it.
                 new_args = getattr(r.query_ast, "args", [])
                 if (
+                    lambda_keyword is not None
+                    and len(new_args) == 2
+                    and isinstance(new_args[1], ast.Lambda)
+                ):
+                    call_node = copy.copy(call_node)
+                    call_node.keywords = [ast.keyword(arg=lambda_keyword.arg, value=new_args[1])]
+                elif (
                     len(new_args) == 2
                     and isinstance(new_args[1], ast.Lambda)
                     and new_args[1] is not call_node.args[0]
@@ -720,7 +740,11 @@ def remap_by_types(
 
                 # if the static type check worked, we might be able to use this answer.
                 if return_annotation is not None:
-                    has_lambda_arg = any(isinstance(a, ast.Lambda) for a in default_args_node.args)
+                    has_lambda_arg = any(
+                        isinstance(a, ast.Lambda)
+                        for a in list(default_args_node.args)
+                        + [k.value for k in default_args_node.keywords]
+                    )
                     return_results.append(
                         _MethodTypeReturnInfo(
                             node=default_args_node,
